@@ -721,12 +721,26 @@ fn history(ctx: &mut Ctx, t: &[u8], seed: u64) {
                 log.push(format!("take@{:?}", path));
             }
             _ => {
-                // read-only accessors on the target
+                // read-only accessors on the target (on a still-raw container they fill the cache of
+                // parsed children that a later mutation of the same node takes over)
                 let mut s = vec![];
                 mt.ser(&mut s);
                 if let Ok(dom) = sonic_rs::from_slice::<Value>(&s) {
                     if target.get_type() != dom.get_type() {
                         ctx.fail("type-differs-after-mutation", format!("{:?} vs {:?}; history {:?}", target.get_type(), dom.get_type(), log));
+                        return;
+                    }
+                    let ro: &OwnedLazyValue = &*target;
+                    let n_arr = ro.as_array().map(|a| a.len());
+                    let n_obj = ro.as_object().map(|o| o.len());
+                    let want_arr = dom.as_array().map(|a| a.len());
+                    let want_obj = dom.as_object().map(|o| o.len());
+                    let first = ro.get(0).map(|c| sonic_rs::to_string(c).unwrap_or_default());
+                    let want_first = dom.as_array().and_then(|a| a.first()).map(|_| ());
+                    let by_key = dom.as_object().and_then(|o| o.iter().next()).map(|(k, _)| k.to_string());
+                    let got_key = by_key.as_ref().map(|k| ro.get(k.as_str()).is_some());
+                    if n_arr != want_arr || n_obj != want_obj || first.is_some() != want_first.is_some() || got_key == Some(false) || ro.pointer(&sonic_rs::pointer![]).is_none() {
+                        ctx.fail("read-differs-after-mutation", format!("as_array len {:?}/{:?}, as_object len {:?}/{:?}, get(0) {:?}, get(first key) {:?}; history {:?}", n_arr, want_arr, n_obj, want_obj, first, got_key, log));
                         return;
                     }
                 }
